@@ -86,7 +86,8 @@ pub fn check_partitions(ctx: &Ctx, reg: &Reg, s: &Spec, bytes: &[u8]) -> Result<
         let nf = d.weighted(&[3, 3, 2, 2]);
         for _ in 0..nf {
             let pos = d.below(lay.groups.len() + 1);
-            let f = d.pick(FOREIGN).to_string();
+            let pool = if names.iter().any(|n| n == "doc") { &FOREIGN[2..] } else { FOREIGN };
+            let f = d.pick(pool).to_string();
             if f.contains("a b ;") || f.contains("= = =") {
                 any_unparseable_foreign = true;
             }
